@@ -31,6 +31,26 @@ import (
 type c09disk struct {
 	Disk
 	stopped int32
+	fwdStop bool      // forward Stop to the wrapped disk (Manager); MemDisk.Stop would discard the bytes
+	w       *c09world // shared one-shot fault
+	created map[interface{}]bool
+}
+
+// One injected disk fault, armed by the harness for one Create / PullTract call. It hits the first
+// NEW file that call opens (doCreate): kind 1 = the Open(O_CREATE|O_EXCL) itself, 2 = Setxattr on that
+// handle, 3 = the data Write on that handle (half of the bytes get written, then the error).
+type c09fault struct {
+	armed bool
+	kind  int
+	err   core.Error
+	fired bool
+}
+
+func (d *c09disk) fault() *c09fault {
+	if d.w == nil || !d.w.fault.armed {
+		return nil
+	}
+	return &d.w.fault
 }
 
 func (d *c09disk) off() bool { return atomic.LoadInt32(&d.stopped) != 0 }
@@ -38,11 +58,35 @@ func (d *c09disk) Open(ctx context.Context, id core.TractID, flags int) (interfa
 	if d.off() {
 		return nil, core.ErrDiskRemoved
 	}
-	return d.Disk.Open(ctx, id, flags)
+	creating := flags&os.O_CREATE != 0 && flags&os.O_EXCL != 0
+	if ft := d.fault(); ft != nil && ft.kind == 1 && creating {
+		ft.armed, ft.fired = false, true
+		return nil, ft.err
+	}
+	f, e := d.Disk.Open(ctx, id, flags)
+	if e == core.NoError && creating {
+		if d.created == nil {
+			d.created = map[interface{}]bool{}
+		}
+		d.created[f] = true
+	}
+	return f, e
+}
+func (d *c09disk) Close(f interface{}) core.Error {
+	delete(d.created, f)
+	return d.Disk.Close(f)
 }
 func (d *c09disk) Write(ctx context.Context, f interface{}, b []byte, off int64) (int, core.Error) {
 	if d.off() {
 		return 0, core.ErrDiskRemoved
+	}
+	if ft := d.fault(); ft != nil && ft.kind == 3 && d.created[f] {
+		ft.armed, ft.fired = false, true
+		n := 0
+		if len(b) > 1 {
+			n, _ = d.Disk.Write(ctx, f, b[:len(b)/2], off) // a short write really reaches the disk
+		}
+		return n, ft.err
 	}
 	return d.Disk.Write(ctx, f, b, off)
 }
@@ -92,6 +136,10 @@ func (d *c09disk) Setxattr(f interface{}, name string, value []byte) core.Error 
 	if d.off() {
 		return core.ErrDiskRemoved
 	}
+	if ft := d.fault(); ft != nil && ft.kind == 2 && d.created[f] {
+		ft.armed, ft.fired = false, true
+		return ft.err
+	}
 	return d.Disk.Setxattr(f, name, value)
 }
 func (d *c09disk) SetControlFlags(fl core.DiskControlFlags) core.Error {
@@ -100,7 +148,12 @@ func (d *c09disk) SetControlFlags(fl core.DiskControlFlags) core.Error {
 	}
 	return d.Disk.SetControlFlags(fl)
 }
-func (d *c09disk) Stop() { atomic.StoreInt32(&d.stopped, 1) }
+func (d *c09disk) Stop() {
+	atomic.StoreInt32(&d.stopped, 1)
+	if d.fwdStop {
+		d.Disk.Stop()
+	}
+}
 
 // ---------- scripted TractserverTalker: the harness chooses what the remote side answers ----------
 
@@ -174,6 +227,11 @@ type c09world struct {
 	cid    string
 	snap   *c09snap
 	nops   int
+	fault  c09fault
+	// copies that appeared on a disk without a successful Create/PullTract of that tract (leftovers)
+	phantom map[[2]int64]bool
+	// copies installed by a successful PullTract and not modified since: (disk, tract) -> file
+	pulled map[[2]int64]c09file
 }
 
 var c09cfg = func() Config {
@@ -219,13 +277,13 @@ func (w *c09world) newStore() {
 
 func (w *c09world) newDiskObject(pd int) Disk {
 	if w.kind == 0 {
-		return &c09disk{Disk: w.mem[pd]}
+		return &c09disk{Disk: w.mem[pd], w: w}
 	}
 	m, err := NewManager(w.roots[pd], w.cfg)
 	if err != nil {
 		w.t.Fatalf("NewManager: %v", err)
 	}
-	return m
+	return &c09disk{Disk: m, w: w, fwdStop: true}
 }
 
 func (w *c09world) scanDisk(pd int) map[int64]c09file {
@@ -386,6 +444,48 @@ func (w *c09world) emitWith(op []int64, res []int64, post *c09snap) (*c09snap, *
 	w.nops++
 	if w.nops%7 == 3 {
 		vw.Sample(fmt.Sprintf("case %s op %d: > %s  < %s", w.cid, w.nops, vw.Ints(op), vw.Ints(l)))
+	}
+	// a copy comes into existence only through a successful Create / PullTract of that tract
+	installOp := len(op) > 1 && (op[0] == 1 || op[0] == 6 || op[0] == 13 || op[0] == 14) && len(res) > 0 && res[0] == 0
+	for pd := range post.disks {
+		for k := range post.disks[pd] {
+			if _, was := pre.disks[pd][k]; was {
+				continue
+			}
+			if installOp && op[1] == k {
+				delete(w.phantom, [2]int64{int64(pd), k})
+				continue
+			}
+			w.phantom[[2]int64{int64(pd), k}] = true
+			w.viol(fmt.Sprintf("copy-appeared-without-successful-install-op%d", op[0]),
+				"a file for a tract exists on a disk although no successful Create/PullTract of that tract put it there (leftover of a failed install)",
+				map[string]interface{}{"disk": pd, "tract": k, "version": post.disks[pd][k].ver, "result": res})
+		}
+		for k := range pre.disks[pd] {
+			if _, is := post.disks[pd][k]; !is {
+				delete(w.phantom, [2]int64{int64(pd), k})
+				delete(w.pulled, [2]int64{int64(pd), k})
+			}
+		}
+	}
+	for k := range post.table {
+		if f, pd, ok := post.cur(k); ok && w.phantom[[2]int64{int64(pd), k}] {
+			w.viol("served-never-installed-copy",
+				"the server serves a copy that no successful Create/PullTract installed (left behind by a failed one and picked up by a restart / re-attach)",
+				map[string]interface{}{"disk": pd, "tract": k, "version": f.ver, "size": f.size})
+		}
+	}
+	// a copy installed by PullTract keeps exactly the pulled bytes and version across restart / re-attach
+	for key, f0 := range w.pulled {
+		f1, ok := post.disks[key[0]][key[1]]
+		if !ok || f1 == f0 {
+			continue
+		}
+		if op[0] == 9 || op[0] == 10 || op[0] == 11 {
+			w.viol("pulled-copy-changed-across-restart", "a copy installed by PullTract no longer has the complete source bytes at the pulled version after a restart / re-attach",
+				map[string]interface{}{"disk": key[0], "tract": key[1], "v_pulled": f0.ver, "v_now": f1.ver})
+		}
+		delete(w.pulled, key) // legitimately modified by a later write / bump / pull
 	}
 	// every copy's version is monotone along the history, whatever the operation was
 	for pd := range post.disks {
@@ -695,18 +795,42 @@ func c09oracle(pre, post *c09snap, t int64, ok bool) int64 {
 	return int64(post.table[t])
 }
 
-func (w *c09world) opCreate(t int64, data []byte, off int64) {
+func c09faultErr(kind int) core.Error {
+	if kind == 3 {
+		return core.ErrNoSpace
+	}
+	return core.ErrIO
+}
+
+func (w *c09world) opCreate(t int64, data []byte, off int64) { w.opCreateF(t, data, off, 0) }
+
+// opCreateF: Create, with disk fault `fk` (0 = none) armed for the call.
+func (w *c09world) opCreateF(t int64, data []byte, off int64, fk int) {
+	if fk != 0 {
+		w.fault = c09fault{armed: true, kind: fk, err: c09faultErr(fk)}
+	}
 	e := w.store.Create(context.Background(), w.tid(t), data, off)
+	fired := w.fault.fired
+	w.fault = c09fault{}
 	post := w.scan()
 	orc := int64(0)
 	if _, was := w.snap.table[t]; !was && e == core.NoError {
 		orc = int64(post.table[t])
 	}
 	var op vw.L
-	op.Add(1, t, off, orc)
+	if fk != 0 {
+		op.Add(13, t, off, orc, int64(fk), int64(c09faultErr(fk)))
+		vw.Stat(fmt.Sprintf("fault.create.kind=%d.fired=%v", fk, fired), 1)
+	} else {
+		op.Add(1, t, off, orc)
+	}
 	op.Add(vw.RLE(data)...)
 	pre, _ := w.emitWith(op, []int64{int64(e)}, post)
 	vw.Stat("create.rc="+e.String(), 1)
+	if fired && (e == core.NoError || !c09same(pre, post, true)) {
+		w.viol("failed-create-left-state", "a Create whose disk call failed reported success or changed stored state",
+			map[string]interface{}{"tract": t, "fault": fk, "err": e.String()})
+	}
 	// Create on an existing tract is a write fenced at the initial version
 	if f, _, ok := pre.cur(t); ok {
 		iv := int64(1)
@@ -868,7 +992,10 @@ type c09src struct {
 	err  core.Error
 }
 
-func (w *c09world) opPull(t int64, v int64, srcs []c09src) {
+func (w *c09world) opPull(t int64, v int64, srcs []c09src) { w.opPullF(t, v, srcs, 0) }
+
+// opPullF: PullTract, with disk fault `fk` (0 = none) armed for the call.
+func (w *c09world) opPullF(t int64, v int64, srcs []c09src, fk int) {
 	w.talker.replies = map[string]c09reply{}
 	w.talker.calls = nil
 	var addrs []string
@@ -877,14 +1004,24 @@ func (w *c09world) opPull(t int64, v int64, srcs []c09src) {
 		addrs = append(addrs, a)
 		w.talker.replies[a] = c09reply{b: s.data, err: s.err}
 	}
+	if fk != 0 {
+		w.fault = c09fault{armed: true, kind: fk, err: c09faultErr(fk)}
+	}
 	e := w.store.PullTract(context.Background(), addrs, w.tid(t), int(v))
+	fired := w.fault.fired
+	w.fault = c09fault{}
 	post := w.scan()
 	orc := int64(0)
 	if e == core.NoError && len(srcs) > 0 {
 		orc = int64(post.table[t])
 	}
 	var op vw.L
-	op.Add(6, t, v, orc)
+	if fk != 0 {
+		op.Add(14, t, v, orc, int64(fk), int64(c09faultErr(fk)))
+		vw.Stat(fmt.Sprintf("fault.pull.kind=%d.fired=%v", fk, fired), 1)
+	} else {
+		op.Add(6, t, v, orc)
+	}
 	op.AddInt(len(srcs))
 	for _, s := range srcs {
 		op.Add(int64(s.err))
@@ -893,7 +1030,21 @@ func (w *c09world) opPull(t int64, v int64, srcs []c09src) {
 	pre, _ := w.emitWith(op, []int64{int64(e)}, post)
 	vw.Stat("pull.rc="+e.String(), 1)
 	f0, _, had := pre.cur(t)
-	f1, _, has := post.cur(t)
+	f1, pd1, has := post.cur(t)
+	if e == core.NoError && len(srcs) > 0 && has {
+		w.pulled[[2]int64{int64(pd1), t}] = f1
+	}
+	if e != core.NoError {
+		// a failed PullTract leaves no copy of the tract at the attempted version anywhere it was not before
+		for pd := range post.disks {
+			if f, ok := post.disks[pd][t]; ok && f.hasver && f.ver == v {
+				if g, was := pre.disks[pd][t]; !was || g != f {
+					w.viol("failed-pull-left-copy-at-attempted-version", "a failed PullTract left a copy stamped with the attempted version on disk",
+						map[string]interface{}{"tract": t, "disk": pd, "version": v, "size": f.size, "err": e.String()})
+				}
+			}
+		}
+	}
 	if had && f0.hasver && f0.ver > v {
 		vw.Stat("pull.onto-newer", 1)
 		if (e == core.NoError && len(srcs) > 0) || !c09same(pre, post, false) {
@@ -1121,6 +1272,56 @@ func (w *c09world) reattach(r *vw.Rng, pd int) {
 	vw.Stat("macro.reattach", 1)
 }
 
+// faultMacro: an install (Create / PullTract) whose disk call on the new file fails, followed by a
+// restart or re-attach that would pick up anything left behind, sometimes by a successful retry.
+func (w *c09world) faultMacro(r *vw.Rng) {
+	if len(w.attached()) == 0 {
+		return
+	}
+	t := r.PickI64(0, 0, 1, 2, 100)
+	fk := r.PickInt(1, 2, 3, 3, 3)
+	cur, have := w.curVersion(t)
+	v := int64(r.Range(1, 5))
+	if have {
+		v = cur + int64(r.PickInt(0, 1, 1, 2))
+	}
+	if t >= 100 && r.Chance(1, 2) {
+		v = core.RSChunkVersion
+	}
+	if r.Chance(1, 3) {
+		if _, _, ok := w.snap.cur(t); ok && r.Chance(2, 3) {
+			w.opGC(nil, []int64{t})
+		}
+		w.opCreateF(t, c09data(r, false), 0, fk)
+	} else {
+		n := r.PickInt(1, 1, 2, 3)
+		var srcs []c09src
+		for i := 0; i < n; i++ {
+			s := c09src{data: c09data(r, false), err: core.NoError}
+			if len(s.data) < 4 {
+				s.data = append(s.data, 9, 9, 9, 9)
+			}
+			if i == 0 && n > 1 && r.Chance(1, 4) {
+				s = c09src{err: core.ErrRPC}
+			}
+			srcs = append(srcs, s)
+		}
+		w.opPullF(t, v, srcs, fk)
+	}
+	switch r.Intn(5) {
+	case 0, 1:
+		w.fullRestart(r)
+	case 2:
+		if att := w.attached(); len(att) > 0 {
+			w.reattach(r, att[r.Intn(len(att))])
+		}
+	case 3:
+		w.opPull(t, v, c09goodSrc(r))
+		w.fullRestart(r)
+	}
+	vw.Stat("macro.fault", 1)
+}
+
 func (w *c09world) randomOp(r *vw.Rng, big bool) {
 	t := w.randomTract(r)
 	cur, have := w.curVersion(t)
@@ -1133,6 +1334,14 @@ func (w *c09world) randomOp(r *vw.Rng, big bool) {
 	if r.Chance(1, 12) {
 		w.conflictMacro(r)
 		return
+	}
+	if r.Chance(1, 12) {
+		w.faultMacro(r)
+		return
+	}
+	fk := 0
+	if r.Chance(1, 10) {
+		fk = r.PickInt(1, 2, 3)
 	}
 	switch k := r.Intn(100); {
 	case k < 12:
@@ -1147,7 +1356,7 @@ func (w *c09world) randomOp(r *vw.Rng, big bool) {
 		if off+int64(len(d)) > core.TractLength {
 			off = 0
 		}
-		w.opCreate(t, d, off)
+		w.opCreateF(t, d, off, fk)
 	case k < 30:
 		d := c09data(r, big && r.Chance(1, 3))
 		off := int64(0)
@@ -1207,7 +1416,7 @@ func (w *c09world) randomOp(r *vw.Rng, big bool) {
 			}
 			srcs = append(srcs, s)
 		}
-		w.opPull(t, c09pickVersion(r, cur, have), srcs)
+		w.opPullF(t, c09pickVersion(r, cur, have), srcs, fk)
 	case k < 82:
 		var old [][2]int64
 		var gone []int64
@@ -1258,7 +1467,8 @@ func (w *c09world) randomOp(r *vw.Rng, big bool) {
 
 func c09runCase(t *testing.T, tr *vw.Trace, root *vw.Rng, ci int, kind int, big bool) {
 	r := root.Fork(uint64(ci))
-	w := &c09world{t: t, kind: kind, tr: tr, cid: fmt.Sprint(ci), last: map[int64]uint64{}, talker: &c09talker{}}
+	w := &c09world{t: t, kind: kind, tr: tr, cid: fmt.Sprint(ci), last: map[int64]uint64{}, talker: &c09talker{},
+		phantom: map[[2]int64]bool{}, pulled: map[[2]int64]c09file{}}
 	cfg := c09cfg
 	w.cfg = &cfg
 	w.nd = r.PickInt(1, 2, 2, 2, 3, 3)
